@@ -11,6 +11,7 @@ Driver for C05. Case line (strings hex-encoded, lists as `n item…`):
        F <n> { <json path> <path as shipped> <tag> <n> <shown path>… <shape of e.Value()> }*
        I <n> { <path> <code> }*        (what the type's Validate() method returns; modes 2 = all strategies, 3 = interface only)
        C <strategy 0=auto 1=interface 2=tags> <runAll> <interface applicable> <tags applicable> <custom: 0 | 1 <n> { <path> <code> }*>
+         <through app.Context: 0 | 1 <entry point and options 0..7>>
     => PM <n> <path>… LV <n> <path>… V ( N | P | E <truncated> <n> { <path> <code> <hidden> }* )
        K <leak> D <deterministic>
 
@@ -88,6 +89,8 @@ structure Case where
   runAll : Bool
   applic : Applic
   custom : Option (List FieldErr)
+  /-- the handler's entry point and options when the case goes through `app.Context` (harness/c05: AppVia) -/
+  via : Option Nat
   fullErrs : List (Path × Viol)
   /-- the same errors with the path as `namespaceToJSONPath` computed it before the repair of K05e -/
   fullErrsAsIs : List (Path × Viol)
@@ -122,9 +125,10 @@ def pCase : P Case := do
   let ai ← bool
   let at_ ← bool
   let cu ← opt (list (do let p ← str; let c ← str; pure ({ path := p, code := c, hidden := false } : FieldErr)))
+  let via ← opt nat
   let strat : Strat := if sn == 1 then .iface else if sn == 2 then .tags else .auto
   pure { top := top, rules := rules, shape := shape, var := var, strat := strat, runAll := ra,
-         applic := { iface := ai, tags := at_, schema := false }, custom := cu, full := mode != 0, mode := mode, iface := ie,
+         applic := { iface := ai, tags := at_, schema := false }, custom := cu, via := via, full := mode != 0, mode := mode, iface := ie,
          opts := { maxErrors := me, maxFields := mf, redacted := red }, single := single,
          fullErrs := fe.map fun (p, _, t, _) => (p, t), fullErrsAsIs := fe.map fun (_, ap, t, _) => (ap, t),
          fullErrsT := fe.map fun (p, _, t, sh) => (p, ({ tag := t.tag, shows := reveals (maxRecursionDepth + 1) p sh } : Viol)) }
@@ -181,12 +185,30 @@ def encV : VObs → String
 /-- the model of the code as it is in the repository now -/
 def modelPresence (c : Case) : List Path := presence c.top
 def modelLeaves (pm : List Path) : List Path := leafPaths pm
+/-- the app layer's option fold: over which presence map the handler's call validates partially (`none` = it
+    validates fully). `pm` is what the context computed from the body it bound. -/
+def appMode (via : Nat) (pm : List Path) : Option (List Path) :=
+  let others : List VOpt := [.other]
+  if via == 1 then validateMode (.part true :: others) (some pm)
+  else if via == 2 then bindMode [.validation (.part true :: others)] (some pm)
+  else if via == 3 then bindMode [.part, .presence pm, .validation others] (some pm)
+  else if via == 6 then bindPatchMode [.validation others] (some pm)
+  else bindMode [.part, .validation others] (some pm)
+
 /-- `validatePartialT pm shape var o` unfolded one step (`Rivaas.C05.validatePartialT_unfold`, by `rfl`) so
     that the leaf list computed for the comparison is reused and the compiled code goes through the
     `@[csimp]` implementation of `leafPaths` (`Lemmas/PresenceLeaf.lean`) -/
 def modelValidate (c : Case) (leaves : List Path) : VObs :=
-  let tagsRes := if c.mode == 0 then partialFrom mkErr leaves (ownTagsT c.shape c.var) c.opts
-                 else validateFull c.fullErrsT c.opts
+  let tagsRes :=
+    if c.mode == 0 then
+      match c.via with
+      | none => partialFrom mkErr leaves (ownTagsT c.shape c.var) c.opts
+      | some v =>
+        -- through app.Context: partial validation over the presence map the folded options end up with
+        (match appMode v (presence c.top) with
+         | some pm => partialFrom mkErr (leafPaths pm) (ownTagsT c.shape c.var) c.opts
+         | none => validateFull c.fullErrsT c.opts)
+    else validateFull c.fullErrsT c.opts
   .res (validateTop c.custom c.runAll c.strat c.applic
     { iface := coerce c.iface c.opts, tags := tagsRes, schema := none } c.opts)
 
